@@ -196,10 +196,9 @@ def run(ctx, ck) -> None:
     for fs in raw:
         for f in fs:
             if f[0] == 'ne' and ('var', rights_n) in f[1] and len(f[1]) == 2:
-                other = next(x for x in f[1] if x != ('var', rights_n))
-                if other[0] == 'var':
-                    d = next((st for st in rew.body if isinstance(st, ast.Assign) and isinstance(st.targets[0], ast.Name) and st.targets[0].id == other[1]), None)
-                    layout = d is not None and 'join' in ast.unparse(d.value)
+                # an ordered string comparison with the input subscripts refuses the rewrite; *what* it is compared with is
+                # derived by E6 (`expected layout`: the result with the free letter replaced by the contracted one)
+                layout = True
     ck.expect('E3', layout, rew, 'the input layout must equal the output layout with the free letter replaced by the contracted one (ordered string comparison)',
               'the layout guard (an ordered `!=` comparison of the input subscripts with the expected layout string) is gone or weakened: subscripts whose input and output axis orders differ are transposed incorrectly instead of being refused', instance='layout guard')
     # E4: the swap exchanges single positions found with .index(): a letter repeated inside the blocks subscripts
